@@ -627,7 +627,7 @@ theorem sib_arith (D1 D2 : Int) :
 
 theorem dateSub_spec (x y : Int) :
     (x - y > 9223372036854775807 ∧ dateSub x y = 9223372036854775807) ∨
-    (x - y ≤ -9223372036854775808 ∧ dateSub x y = -9223372036854775808) ∨
+    (x - y ≤ -9223372036854775808 ∧ dateSub x y = 9223372036854775807) ∨
     (0 ≤ x - y ∧ x - y ≤ 9223372036854775807 ∧ dateSub x y = x - y) ∨
     (-9223372036854775808 < x - y ∧ x - y < 0 ∧ dateSub x y = -(x - y)) := by
   simp only [dateSub, timeSub, durAbs, maxDur, minDur]
